@@ -102,7 +102,10 @@ def build_unit(sidecar_path, sources, variant=None):
     u = Unit(sc["unit"])
     u.sidecar = sc
     u.props = sc.get("properties", [])
-    rules = sc.get("rewrites", [])
+    # R4 (let-chains -> nested ifs) applies everywhere: a no-op where there is no chain
+    rules = list(sc.get("rewrites", []))
+    if "R4" not in rules:
+        rules.append("R4")
     default_src = sc.get("source", "expanded")
     if sc.get("compose"):
         for f in sc.get("fn", []) + sc.get("arm", []) + sc.get("closure_fn", []):
